@@ -1,7 +1,166 @@
-//! C14 memory-vs-file part (puppet-based) — filled in once the puppet exists.
+//! C14 memory-vs-file part, and the C02 family "mutated ELF image at the start of a mapping".
+
+use crate::checks::c02::{total_dump, Case, Verdict};
+use crate::checks::c14::{agree, Ident};
+use crate::checks::guarded;
+use crate::dump::DumpOpts;
+use crate::puppet::{Kind, Puppet};
+use crate::shapes::par_map;
 use crate::Ctx;
-use mdv_core::{Report, Value};
-pub fn run(_ctx: &Ctx, _rep: &mut Report) {}
-pub fn replay(_case: &Value, rep: &mut Report) {
-    rep.machinery("memory-vs-file C14 replay not available yet".into());
+use mdv_core::elfbuild::{build, write_field, Spec};
+use mdv_core::mapsref::parse_maps;
+use mdv_core::{json, Report, Value};
+use minidump_writer::module_reader::{BuildId, ProcessMemory, ProcessReader, ReadFromModule, SoName};
+
+const FIX: &str = "/verif/target/fixtures";
+const SYSTEM_LIBS: [&str; 14] = ["libz.so.1", "libm.so.6", "libbz2.so.1.0", "liblzma.so.5", "libgcc_s.so.1", "libstdc++.so.6", "libcrypt.so.1", "libresolv.so.2", "libutil.so.1", "librt.so.1", "libffi.so.8", "libexpat.so.1", "libuuid.so.1", "libtinfo.so.6"];
+
+fn from_memory(pid: i32, base: u64) -> Result<Ident, String> {
+    guarded(|| {
+        let b = BuildId::read_from_module(ProcessMemory::from(ProcessReader::new(pid, base as usize))).ok().map(|b| b.0);
+        let s = SoName::read_from_module(ProcessMemory::from(ProcessReader::new(pid, base as usize))).ok().map(|s| s.0);
+        Ident { build_id: b, soname: s }
+    })
+}
+
+fn from_file(path: &str) -> Result<Ident, String> {
+    guarded(|| {
+        let p = std::path::Path::new(path);
+        Ident { build_id: BuildId::read_from_file(p).ok().map(|b| b.0), soname: SoName::read_from_file(p).ok().map(|s| s.0) }
+    })
+}
+
+fn candidates(thorough: bool) -> Vec<String> {
+    let mut v: Vec<String> = ["libfix_sha1.so", "libfix_none.so", "libfix_zero.so", "libfix_8.so", "libfix_nosoname.so", "lib with space.so", "libver.so.6.0.32"].iter().map(|f| format!("{FIX}/{f}")).collect();
+    v.push(format!("{FIX}/libnonascii_\u{e9}.so"));
+    let dirs = ["/usr/lib/x86_64-linux-gnu", "/lib/x86_64-linux-gnu"];
+    for l in SYSTEM_LIBS.iter().take(if thorough { 14 } else { 6 }) {
+        for d in dirs {
+            let p = format!("{d}/{l}");
+            if std::path::Path::new(&p).exists() {
+                v.push(p);
+                break;
+            }
+        }
+    }
+    v
+}
+
+fn check_lib(path: &str) -> (Value, Vec<(String, String)>, bool) {
+    let case = json!({"memory_vs_file": path});
+    let mut fails = Vec::new();
+    let mut p = Puppet::spawn();
+    p.add_thread(Kind::Block);
+    if p.cmd(&format!("dlopen {}", mdv_core::hex(path.as_bytes()))).is_err() {
+        return (case, fails, false);
+    }
+    p.quiesce();
+    let real = std::fs::canonicalize(path).map(|p| p.to_string_lossy().into_owned()).unwrap_or(path.to_string());
+    let maps = parse_maps(&p.maps_text()).unwrap_or_default();
+    let Some(base) = maps.iter().find(|l| l.offset == 0 && l.name.as_deref() == Some(real.as_bytes())).map(|l| l.start) else {
+        return (case, fails, false);
+    };
+    let mem = from_memory(p.pid, base);
+    let file = from_file(&real);
+    match (&mem, &file) {
+        (Err(pn), _) | (_, Err(pn)) => fails.push(("memory-vs-file/panic".into(), format!("{path}: {pn}"))),
+        (Ok(m), Ok(f)) => {
+            if m.build_id != f.build_id {
+                fails.push(("memory-vs-file/build-id".into(), format!("{path}: build id from memory {:?} != from file {:?}", m.build_id.as_ref().map(|b| mdv_core::hex(b)), f.build_id.as_ref().map(|b| mdv_core::hex(b)))));
+            }
+            if m.soname != f.soname {
+                fails.push(("memory-vs-file/soname".into(), format!("{path}: SONAME from memory {:?} != from file {:?}", m.soname, f.soname)));
+            }
+            if let Ok(bytes) = std::fs::read(&real) {
+                if let Some((k, msg)) = agree(&bytes, m, "memory") {
+                    fails.push((k, format!("{path} (read from target memory): {msg}")));
+                }
+            }
+        }
+    }
+    (case, fails, true)
+}
+
+pub fn run(ctx: &Ctx, rep: &mut Report) {
+    let libs = candidates(ctx.tier.is_thorough());
+    let results = par_map(&libs, |_, l| check_lib(l));
+    let mut loaded = 0;
+    for (case, fails, ok) in results {
+        rep.evaluations += 1;
+        if ok {
+            loaded += 1;
+            rep.nontrivial += 1;
+        }
+        if rep.samples.len() < 8 && ok {
+            rep.sample(case.clone());
+        }
+        for (k, m) in fails {
+            rep.violation(&k, &m, case.clone());
+        }
+    }
+    rep.set("memory_vs_file", json!({"candidates": libs.len(), "loaded_and_compared": loaded}));
+    if loaded < 5 {
+        rep.machinery(format!("only {loaded} libraries could be loaded into the puppet"));
+    }
+}
+
+pub fn replay(case: &Value, rep: &mut Report) {
+    if let Some(p) = case.get("memory_vs_file").and_then(|p| p.as_str()) {
+        let (c, fails, _) = check_lib(p);
+        rep.evaluations += 1;
+        for (k, m) in fails {
+            rep.violation(&k, &m, c.clone());
+        }
+    } else {
+        rep.machinery("unknown C14 replay".into());
+    }
+}
+
+// ------------------------------------------------------------------------------------- C02 family
+
+const VALUES: [u64; 12] = [0, 1, 0xffff, 0x7fff_ffff, 0xffff_ffff, 1 << 32, (1 << 63) - 1, 1 << 63, u64::MAX - 4095, u64::MAX - 7, u64::MAX, 0x2000];
+
+fn specs() -> Vec<Spec> {
+    let d = Spec::default();
+    vec![d.clone(), Spec { is64: false, ..d.clone() }, Spec { pt_note: false, section_note: false, text_len: 3000, ..d.clone() }]
+}
+
+pub fn c02_cases(thorough: bool) -> Vec<Case> {
+    let mut v = Vec::new();
+    for (i, s) in specs().iter().enumerate() {
+        if !thorough && i == 2 {
+            continue;
+        }
+        let b = build(s);
+        for f in 0..b.fields.len() {
+            for val in 0..VALUES.len() {
+                if !thorough && val % 2 == 1 && i == 1 {
+                    continue;
+                }
+                v.push(Case::ElfInMemory { image: i, field: f, value: val });
+            }
+        }
+    }
+    v
+}
+
+pub fn c02_elf_in_memory(image: usize, field: usize, value: usize) -> Verdict {
+    let spec = &specs()[image];
+    let b = build(spec);
+    let mut bytes = b.bytes.clone();
+    let f = &b.fields[field];
+    write_field(&mut bytes, f, b.be, VALUES[value]);
+    bytes.resize(8192, 0);
+    let dir = "/verif/target/tmp";
+    let _ = std::fs::create_dir_all(dir);
+    let path = format!("{dir}/elfmem_{}_{:?}.so", std::process::id(), std::thread::current().id()).replace(['(', ')'], "");
+    let _ = std::fs::write(&path, &bytes);
+    let mut p = Puppet::spawn();
+    p.add_thread(Kind::Block);
+    let _ = p.mapfile(path.as_bytes(), 0, 8192, "rx");
+    p.quiesce();
+    let v = total_dump(&p, &DumpOpts::default(), vec![], &format!("mapped ELF image #{image} with {} = {:#x}", f.name, VALUES[value]));
+    drop(p);
+    let _ = std::fs::remove_file(&path);
+    v
 }
